@@ -352,7 +352,7 @@ func (ex *Exec) callSpec(p *Path, name string, call *ast.CallExpr) Value {
 			terms = append(terms, a.T)
 		}
 		f := ex.c.Fun("spec:"+name, sorts, ex.c.SortOf(rt))
-		if sf.Rec {
+		if sf.Rec && (!sf.Hidden || (ex.contract != nil && ex.contract.Reveal[name]) || ex.revealAll[name]) {
 			ex.defineRec(sf, f, ptypes, rt)
 		}
 		return Value{app(f, terms...), rt}
